@@ -186,6 +186,24 @@ def build_coq_checked(facts):
     ok, lg, failed = build_coq()
     if "theories/Gen2.vo" in failed:
         from tools import rs2coq2
+        gen2 = os.path.join(THEORIES, "Gen2.v")
+        # first try to replace only the function(s) whose translation does not type-check
+        some = {}
+        for _attempt in range(6):
+            m = re.search(r'File "\./theories/Gen2\.v", line (\d+)', lg)
+            name = rs2coq2.function_at_line(open(gen2).read(), int(m.group(1))) if m else None
+            if not name or name in some:
+                break
+            some[name] = "the translation of this function from the current sources does not type-check"
+            tr2 = rs2coq2.regenerate2(REPO, gen2, force_some=some)
+            facts["translator2_fallbacks"] = tr2["failed2"]
+            facts["translated_whole_functions"] = tr2["translated2"]
+            log("Gen2.v: %s replaced by its pinned translation (ill-typed as translated)" % name)
+            ok, lg, failed = build_coq()
+            if "theories/Gen2.vo" not in failed:
+                break
+    if "theories/Gen2.vo" in failed:
+        from tools import rs2coq2
         why = "Gen2.v as translated from the current sources does not compile"
         tr2 = rs2coq2.regenerate2(REPO, os.path.join(THEORIES, "Gen2.v"), force_all=why)
         facts["translator2_fallbacks"] = tr2["failed2"]
